@@ -116,7 +116,42 @@ def judge(case):
                 cn.COPY = True
         finally:
             cn.COPY = True
+    if accepted and not whitelisted and case.get("form", "fn") == "fn" and case["op"] != "dropout":
+        _outside_graph(sg, fam, case, base_arrays, diff, v)
     return {"nontrivial": accepted, "outcome": "accepted" if accepted else "rejected", "violations": viol}
+
+def _outside_graph(sg, fam, case, arrays, diff, v):
+    """the operation applied with gradient tracking off to operands that carry gradients (leaves and retained interior nodes);
+    its result is then used as a constant in ANOTHER graph that is back-propagated: the operands are outside that graph, their
+    gradients must stay byte-identical"""
+    diff = [k for k in diff if np.asarray(arrays[k]).dtype.kind == "f"]
+    if not diff: return
+    apply = (lambda ts: ct.OPS[case["op"]].lib(sg, ts, case.get("args") or {})) if fam is ct else (lambda ts: cn.run_lib(case, arrays, None, ts_override=ts)[0])
+    try:
+        L = [sg.Tensor(np.array(a, copy=True), requires_grad=(i in diff)) for i, a in enumerate(arrays)]
+        pre = [(t * 1.0) if i in diff else t for i, t in enumerate(L)]
+        for k in diff: pre[k].retain_grad()
+        tot = None
+        for k in diff:
+            tot = pre[k].sum() if tot is None else tot + pre[k].sum()
+        tot.backward()
+        snap = {k: (np.asarray(L[k].grad.data).tobytes(), np.asarray(pre[k].grad.data).tobytes()) for k in diff}
+        with sg.no_grad():
+            t = apply(pre)
+        if np.asarray(t.data).dtype.kind != "f" or t.requires_grad:
+            return          # flags of untracked results are C07's subject
+        w = sg.Tensor(np.ones(t.shape, dtype=np.asarray(t.data).dtype), requires_grad=True)
+        (w * t).sum().backward()
+    except harness.HarnessError:
+        raise
+    except Exception:
+        return
+    for k in diff:
+        now = (None if L[k].grad is None else np.asarray(L[k].grad.data).tobytes(), None if pre[k].grad is None else np.asarray(pre[k].grad.data).tobytes())
+        if now != snap[k]:
+            v("gradient-outside-graph-modified", f"operand {k}: the operation ran under no_grad and its result was used as a constant in another graph; "
+              f"backward of that graph changed the {'leaf' if now[0] != snap[k][0] else 'retained interior'} gradient of the operand")
+            break
 
 def clone_detach_cases():
     return [{"op": "special:" + k, "shapes": [list(s)], "args": {"rg": r}} for k in ("clone", "detach")
